@@ -234,6 +234,31 @@ pub fn run(tier: Tier) -> i32 {
         for k in 0..b.writes {
             jobs.push(Job { ti, rd: None, sk: Sk { fail_write_at: Some(k), ..Sk::default() }, fault: true, what: format!("write call #{} of {} fails", k, b.writes) });
         }
+        // other ways for a sink to fail: WouldBlock / TimedOut instead of Other, and a call that accepts nothing (Ok(0)),
+        // which a correct caller reports as WriteZero
+        {
+            let stride = (b.writes / tier.pick(60, 600)).max(1);
+            let mut k = 0;
+            while k < b.writes {
+                for kind in [2u8, 3] {
+                    jobs.push(Job { ti, rd: None, sk: Sk { fail_write_at: Some(k), fail_kind: kind, ..Sk::default() }, fault: true, what: format!("write call #{} of {} fails with error kind {}", k, b.writes, kind) });
+                }
+                jobs.push(Job { ti, rd: None, sk: Sk { zero_write_at: Some(k), ..Sk::default() }, fault: true, what: format!("write call #{} of {} accepts nothing (Ok(0))", k, b.writes) });
+                k += stride;
+            }
+        }
+        // other kinds of source failure: WouldBlock and TimedOut are failures like any other; an Interrupted read may
+        // be retried (then the result is the fault-free one) or reported
+        if !is_stream {
+            let stride = (b.reads / tier.pick(40, 400)).max(1);
+            let mut k = 0;
+            while k < b.reads {
+                for kind in [1u8, 2, 3] {
+                    jobs.push(Job { ti, rd: Some(Rd { fail_at: Some(k), fail_kind: kind, ..inert_of(&t.base) }), sk: Sk::default(), fault: true, what: format!("read/fill_buf call #{} of {} fails with error kind {}", k, b.reads, kind) });
+                }
+                k += stride;
+            }
+        }
         for k in 0..b.flushes {
             jobs.push(Job { ti, rd: None, sk: Sk { fail_flush_at: Some(k), ..Sk::default() }, fault: true, what: format!("flush call #{} of {} fails", k, b.flushes) });
         }
@@ -278,7 +303,9 @@ pub fn run(tier: Tier) -> i32 {
             // (a later finish() may legitimately succeed once the sink works again).
             // Stream: precisely the call during which the sink failed reports it.
             let errd = if o.ops.is_empty() { o.v.is_err() } else { o.ops.iter().find(|x| x.fault).map_or(false, |x| x.v.is_err()) && !o.ops.iter().any(|x| x.v.is_panic()) };
-            if !(errd && b.out.starts_with(&o.out.0)) {
+            // an Interrupted read: retrying is as good as reporting (then everything is as in the fault-free run)
+            let retried = j.rd.as_ref().map_or(false, |r| r.fail_kind == 1) && o.v.is_ok() && o.out.0 == b.out;
+            if !retried && !(errd && b.out.starts_with(&o.out.0)) {
                 ctx.violation(&case, &format!("{}: {} => Err, and the {} bytes accepted by the sink are a prefix of the fault-free output", t.label, j.what, o.out.0.len()), &o, None);
             }
         } else if !(o.v.is_ok() && o.out.0 == b.out) {
